@@ -26,6 +26,7 @@ type Obligation struct {
 	Probes    []Probe
 	Script    *Script
 	Epilogue  []string
+	slicedEpi []string
 }
 
 type Probe struct {
@@ -67,6 +68,21 @@ type Exec struct {
 	uniq       int
 	boxDecl    bool
 	entryProbes []Probe
+	revealed   map[string]bool
+	lateProbes []*Clause
+}
+
+// lateProbeValues evaluates the probes that mention locals in the given environment.
+func (x *Exec) lateProbeValues(env *Env) []Probe {
+	var out []Probe
+	for _, pc := range x.lateProbes {
+		v, err := env.evalRV(pc.E)
+		if err != nil || len(v.L) != 1 {
+			continue
+		}
+		out = append(out, Probe{Name: pc.Label, Term: x.sc.Define("probe", sortOfVal(x, v), v.L[0])})
+	}
+	return out
 }
 
 const allocName = "G:alloc"
@@ -123,7 +139,12 @@ type loopHead struct {
 
 func (e *Engine) NewExec(root *ssa.Function, c *Contract) *Exec {
 	x := &Exec{eng: e, sc: NewScript(), arraySort: map[string]string{}, root: root, rootC: c,
-		Notes: map[string]int{}, UsedTrust: map[string]bool{}, Inlined: map[string]bool{}, specDone: map[string]bool{}}
+		Notes: map[string]int{}, UsedTrust: map[string]bool{}, Inlined: map[string]bool{}, specDone: map[string]bool{}, revealed: map[string]bool{}}
+	if c != nil {
+		for _, r := range c.Reveal {
+			x.revealed[r] = true
+		}
+	}
 	return x
 }
 
@@ -420,20 +441,29 @@ func (x *Exec) havocAll(st *State) {
 	x.markHavocAll()
 }
 
+// safeNonNil: dereferencing obj panics when it is nil. In safe mode that is an obligation; in every
+// mode execution continues past the instruction only if it did not panic, so the condition is
+// assumed afterwards.
 func (x *Exec) safeNonNil(obj string, reach string, pos token.Pos, what string) {
-	if !x.safe || isLiteral(obj) && obj != "0" {
+	if isLiteral(obj) && obj != "0" {
 		return
 	}
-	x.addObl(&Obligation{Kind: "safe", Label: what, Pos: x.pos(pos), Reach: reach, Goal: Not(Eq(obj, "0")),
-		Name: fmt.Sprintf("%s#safe.%s@L%d", shortFn(x.root), what, x.line(pos))})
+	if x.safe {
+		x.addObl(&Obligation{Kind: "safe", Label: what, Pos: x.pos(pos), Reach: reach, Goal: Not(Eq(obj, "0")),
+			Name: fmt.Sprintf("%s#safe.%s@L%d", shortFn(x.root), what, x.line(pos))})
+	}
+	x.sc.Assume(reach, Not(Eq(obj, "0")))
 }
 
 func (x *Exec) safeCond(cond string, reach string, pos token.Pos, what string) {
-	if !x.safe || cond == "true" {
+	if cond == "true" {
 		return
 	}
-	x.addObl(&Obligation{Kind: "safe", Label: what, Pos: x.pos(pos), Reach: reach, Goal: cond,
-		Name: fmt.Sprintf("%s#safe.%s@L%d", shortFn(x.root), what, x.line(pos))})
+	if x.safe {
+		x.addObl(&Obligation{Kind: "safe", Label: what, Pos: x.pos(pos), Reach: reach, Goal: cond,
+			Name: fmt.Sprintf("%s#safe.%s@L%d", shortFn(x.root), what, x.line(pos))})
+	}
+	x.sc.Assume(reach, cond)
 }
 
 func sortOfVal(x *Exec, v SVal) string {
@@ -496,7 +526,9 @@ func (x *Exec) VerifyRoot() ([]*Obligation, error) {
 		for _, pc := range x.rootC.Probes {
 			v, err := env.evalRV(pc.E)
 			if err != nil {
-				return nil, fmt.Errorf("%s:%d: probe %s: %v", pc.File, pc.Line, pc.Label, err)
+				// probably mentions a local: evaluated where an obligation needs it
+				x.lateProbes = append(x.lateProbes, pc)
+				continue
 			}
 			if len(v.L) == 1 {
 				x.entryProbes = append(x.entryProbes, Probe{Name: pc.Label, Term: x.sc.Define("probe", sortOfVal(x, v), v.L[0])})
@@ -515,15 +547,21 @@ func (x *Exec) VerifyRoot() ([]*Obligation, error) {
 			env.reach = r.reach
 			env.frame = f // postconditions may mention locals with a single definition (resolved through DebugRefs)
 			env.allocPre = entry.Get(allocName, "Int")
+			env.retBlock = fn.Blocks[r.block]
 			for _, c := range x.rootC.Ensures {
+				env.outOfScope = false
 				t, err := env.evalBool(c.E)
 				if err != nil {
+					if env.outOfScope {
+						continue // the clause talks about a local that is not defined on every path to this return
+					}
 					return nil, fmt.Errorf("%s:%d: %v", c.File, c.Line, err)
 				}
 				o := &Obligation{Kind: "ensures", Label: c.Label, Props: c.Props, Pos: x.pos(r.pos), Reach: r.reach, Goal: t, ClauseSrc: c.Src,
 					Name: fmt.Sprintf("%s#ensures.%s@ret%d", shortFn(fn), c.Label, r.block)}
 				o.Probes = append(o.Probes, x.entryProbes...)
 				o.Probes = append(o.Probes, env.probes...)
+				o.Probes = append(o.Probes, x.lateProbeValues(env)...)
 				x.addObl(o)
 			}
 			if x.rootC.HasModifies && !x.rootC.ModAll {
@@ -543,6 +581,11 @@ func (x *Exec) finishLoops() {
 		for _, name := range sortedKeys(li.placeholders) {
 			ph := li.placeholders[name]
 			if li.havocAll {
+				// a call without a frame inside the loop havocked the program heap; ghost state is
+				// only ever changed by contracts, so ghosts the loop does not write keep their value
+				if (strings.HasPrefix(name, "G:") || strings.HasPrefix(name, "V:") || strings.HasPrefix(name, "P:")) && !li.written[name] {
+					x.epilogue = append(x.epilogue, fmt.Sprintf("(assert (= %s %s))", ph[0], ph[1]))
+				}
 				continue
 			}
 			if !li.written[name] {
@@ -955,10 +998,28 @@ func (f *frame) enterLoop(b *ssa.BasicBlock, h *loopHead, pre *State, reach stri
 func (f *frame) backEdge(from, head *ssa.BasicBlock, st *State, reach string) error {
 	x := f.x
 	h := f.heads[head]
-	if h == nil || len(h.invs) == 0 {
+	if h == nil || f.contract == nil || f.depth != 0 {
 		return nil
 	}
 	env := f.localEnv(head, st, reach)
+	if f.contract != nil && f.depth == 0 {
+		benv := f.localEnv(head, st, reach)
+		benv.head = nil
+		for _, c := range f.contract.BackEdges[h.ordinal] {
+			t, err := benv.evalBool(c.E)
+			if err != nil {
+				return fmt.Errorf("%s:%d: %v", c.File, c.Line, err)
+			}
+			o := &Obligation{Kind: "backedge", Label: c.Label, Props: c.Props, Pos: x.pos(loopPos(head, h)), Reach: reach, Goal: t, ClauseSrc: c.Src,
+				Name: fmt.Sprintf("%s#backedge.%s@loop%d.b%d", shortFn(f.fn), c.Label, h.ordinal, from.Index)}
+			o.Probes = append(o.Probes, x.entryProbes...)
+			o.Probes = append(o.Probes, x.lateProbeValues(benv)...)
+			x.addObl(o)
+		}
+	}
+	if len(h.invs) == 0 {
+		return nil
+	}
 	idx := predIndex(head, from)
 	for _, in := range head.Instrs {
 		phi, ok := in.(*ssa.Phi)
